@@ -119,6 +119,8 @@ def fixture_spec(seed):
     }
     for n in range(5):
         inside['f%d.bin' % n] = bytes((0x61 + k + i) % 256 for i in range(n))
+    # longer than two of the 8 KiB blocks in which a server reads the response stream (position-dependent content)
+    inside['big.bin'] = bytes((i * 7 + i // 251 + k) % 256 for i in range(40000))
     outside = {
         'secret.txt': b'SECRET-parent',
         'root2/secret.txt': b'SECRET-sibling',
@@ -808,6 +810,12 @@ def build_shards(tier, seed):
             cases = [(stack, m, t, 0, rv, iv[1] if iv else None) for rv in rvals for iv in ivals for m in ('GET', 'HEAD')
                      for stack in STACKS if not (dl and stack == 'wsgi-fw')]
             shards.append(('range', [[prefix, 'root', None, dl]], cases))
+    # slices longer than two read blocks that end before the end of the file (and the whole big file)
+    big_ranges = [None, 'bytes=5-20004', 'bytes=0-16384', 'bytes=1-39998', 'bytes=-30000', 'bytes=20000-', 'bytes=8191-24577']
+    for dl in (False, True):
+        cases = [(stack, m, ('big.bin',), 0, rv, None) for rv in big_ranges for m in ('GET', 'HEAD') for stack in STACKS
+                 if not (dl and stack == 'wsgi-fw')]
+        shards.append(('range', [[prefix, 'root', None, dl]], cases))
     for fb, t in (('out', ('nope',)), ('in', ('sub', 'nope')), (None, ('frac.txt',)), (None, ('sub', 'b.bin')), ('out', ('@bare',))):
         cases = [(stack, m, t, 0, rv, iv[1] if iv else None) for rv in rvals for iv in ivals for m in ('GET', 'HEAD')
                  for stack in ('wsgi', 'asgi')]
